@@ -162,9 +162,129 @@ def _decode_raw_con(v):
     return hits[0] if len(hits) == 1 else 0
 
 
+class Interner:
+    def __init__(self):
+        self.ids = {}
+
+    def __call__(self, x):
+        key = tuple(np.round(np.asarray(x, dtype=np.float64), 9).tolist())
+        return self.ids.setdefault(key, len(self.ids) + 1)
+
+
+def drive_real(sc):
+    """Code -> spec: a real SciPy algorithm drives the plug-in; every call of a callable is a Req event."""
+    method, cls = sc["method"], sc["cls"]
+    hasnl, haslin = sc["nl"], sc["lin"]
+    cfg = {"variables": {"initial_values": [0.5, 0.5]},
+           "optimizer": {"method": "rvscipy/" + method, "speculative": bool(sc["speculative"]),
+                         "split_evaluations": bool(sc["split"]), "max_functions": sc["maxfun"]},
+           "gradient": {"number_of_perturbations": 5, "perturbation_magnitudes": 0.001}}
+    if sc["bounds"]:
+        cfg["variables"].update({"lower_bounds": [-5.0, -5.0], "upper_bounds": [5.0, 5.0]})
+    if cls == "pop":
+        cfg["optimizer"].update({"parallel": True, "options": {"seed": 3, "popsize": 3, "maxiter": 2, "tol": 1e-9}})
+    if hasnl:
+        cfg["nonlinear_constraints"] = {"lower_bounds": [-INF], "upper_bounds": [100.0]}
+    if haslin:
+        cfg["linear_constraints"] = {"coefficients": [[1.0, 1.0]], "lower_bounds": [-INF], "upper_bounds": [50.0]}
+    pid = Interner()
+    evals, events = [], []
+
+    def evaluator(variables, context):
+        perts = context.perturbations
+        hasf = perts is None or bool(np.any(perts < 0))
+        hasg = perts is not None and bool(np.any(perts >= 0))
+        base = variables if perts is None else (variables[perts < 0] if hasf else variables[:0])
+        evals.append({"pts": [pid(v) for v in base], "f": hasf, "g": hasg})
+        return EvaluatorResult(objectives=fobj(variables)[:, None], constraints=fcon(variables)[:, None] if hasnl else None)
+
+    def wrap(op, kind, fn):
+        def inner(x, *a, **k):
+            x = np.asarray(x, dtype=np.float64)
+            members = x.T if (cls == "pop" and x.ndim > 1) else x[None, :]
+            xs = [pid(m) for m in members]
+            LoggingSciPyPlugin.log.clear(); del evals[:]
+            from ropt.exceptions import OptimizationAborted
+            stop = None
+            try:
+                val, outcome = fn(x, *a, **k), "ok"
+            except OptimizationAborted as exc:          # budget / failure / abort: the documented way a run ends
+                val, outcome, stop = None, "stopped", exc
+            except Exception as exc:  # noqa: BLE001
+                val, outcome, stop = None, f"exc:{type(exc).__name__}", exc
+            ats = []
+            # real algorithms also visit points closer together than the plug-in's point tolerance (outside the
+            # property's quantifier): values are attributed with a tolerance that such neighbours satisfy
+            tol = lambda ref: 1e-2 * (1.0 + abs(ref))  # noqa: E731
+            if outcome == "ok":
+                v = np.asarray(val, dtype=np.float64)
+                for j, m in enumerate(members):
+                    if kind == "f":
+                        ok = abs(v.reshape(-1)[j] - fobj(m)) < tol(fobj(m))
+                    elif kind == "g":
+                        ok = np.allclose(v, gobj(m), atol=0.5)
+                    elif kind == "c_nl":
+                        ok = abs(float(v.reshape(-1)[0]) - (100.0 - fcon(m))) < tol(fcon(m))
+                    elif kind == "c_lin":
+                        ok = abs(float(v.reshape(-1)[0]) - (50.0 - m.sum())) < tol(m.sum())
+                    elif kind == "J_nl":
+                        ok = np.allclose(v, -gcon(m), atol=0.5)
+                    elif kind == "c_popnl":
+                        ok = abs(v.reshape(-1)[j] - fcon(m)) < tol(fcon(m))
+                    else:
+                        ok = None
+                    ats.append(-1 if ok is None else (xs[j] if ok else 0))
+            cbs = []
+            for c in LoggingSciPyPlugin.log:
+                cx = c["x"]
+                pts = [pid(q) for q in (cx if cx.ndim > 1 else [cx])]
+                cbs.append({"pt": pid(np.concatenate([np.atleast_1d(q) for q in cx]) if cx.ndim > 1 else cx) + (1000 if cx.ndim > 1 else 0),
+                            "pts": pts, "f": c["f"], "g": c["g"]})
+            events.append({"ev": "Req", "op": op, "xs": xs, "ats": ats, "outcome": outcome, "cbs": cbs,
+                           "evals": [dict(e) for e in evals], "cls": "grad" if cls == "grad" else "nograd",
+                           "split": bool(sc["split"]), "speculative": bool(sc["speculative"])})
+            if stop is not None:
+                raise stop
+            return val
+        return inner
+
+    def wrap_real(which, kw):
+        kw = dict(kw)
+        if which == "minimize":
+            kw["fun"] = wrap("f", "f", kw["fun"])
+            if callable(kw.get("jac")):
+                kw["jac"] = wrap("g", "g", kw["jac"])
+            cons = []
+            for k, c in enumerate(kw.get("constraints") or []):
+                c = dict(c)
+                isnl = hasnl and k == 0
+                c["fun"] = wrap("c", "c_nl" if isnl else "c_lin", c["fun"])
+                if "jac" in c:
+                    c["jac"] = wrap("J", "J_nl" if isnl else "J_lin", c["jac"])
+                cons.append(c)
+            kw["constraints"] = cons
+        else:
+            kw["func"] = wrap("f", "f", kw["func"])
+            for c in kw.get("constraints") or []:
+                if hasattr(c, "fun") and callable(c.fun):
+                    c.fun = wrap("c", "c_popnl", c.fun)
+        return kw
+
+    pm = manager_with_logging()
+    plan = Plan(OptimizerContext(evaluator=evaluator, plugin_manager=pm))
+    step = plan.add_step("optimizer")
+    with patched(wrap_real=wrap_real):
+        _, outcome = outcome_of(lambda: plan.run_step(step, config=cfg))
+    if outcome not in ("ok",):
+        events.append({"ev": "Req", "op": "run", "xs": [], "ats": [], "outcome": outcome, "cbs": [], "evals": [],
+                       "cls": "grad" if cls == "grad" else "nograd", "split": bool(sc["split"]), "speculative": bool(sc["speculative"])})
+    return events, {"nontrivial": len(events) > 3, "key": "real|" + json.dumps(sc, sort_keys=True), "cls": cls, "split": bool(sc["split"]),
+                    "constraint_first_at_new_point": False}
+
+
 def drive(sc):
-    if "xs" not in sc["hist"][0] and sc["cls"] != "pop":
-        pass
+    if sc.get("real"):
+        return drive_real(sc)
     evA, sigA = run(sc, False)
     evB, sigB = run(sc, True)
     interned = {s: i for i, s in enumerate(sorted({json.dumps(sigA), json.dumps(sigB)}))}
@@ -213,6 +333,14 @@ def extra_scenarios(tier, seed):
             hist = [{"op": "f", "x": int(i)} for i in rng.integers(1, 4, int(rng.integers(2, 5)))]
             out.append({"cls": "nograd", "method": method, "speculative": False, "split": bool(rng.integers(2)), "hist": hist,
                         "nl": False, "lin": False})
+    for method, cls, nl, lin, bounds in (("slsqp", "grad", True, True, True), ("l-bfgs-b", "grad", False, False, True),
+                                         ("tnc", "grad", False, False, True), ("bfgs", "grad", False, False, False),
+                                         ("cobyla", "nograd", True, True, False), ("nelder-mead", "nograd", False, False, True),
+                                         ("powell", "nograd", False, False, True), ("differential_evolution", "pop", True, True, True)):
+        for spec in (False, True):
+            for split in (False, True):
+                out.append({"real": True, "method": method, "cls": cls, "nl": nl, "lin": lin, "bounds": bounds,
+                            "speculative": spec, "split": split, "maxfun": 12 if tier == "quick" else 40})
     for _ in range(n):   # longer gradient-based histories than the exhaustive bound
         hist = [{"op": ["f", "g", "c", "J"][int(rng.integers(4))], "x": int(rng.integers(1, 4))} for _ in range(int(rng.integers(4, 8)))]
         out.append({"cls": "grad", "speculative": False, "split": bool(rng.integers(2)), "hist": hist})
